@@ -100,6 +100,9 @@ def scenarios(tier):
                     sc = {'dll': DLL, 'stacks': stacks3(*wins), 'base_lat': base, 'late_ok': True,
                           'msgs': [m1, dict(m2, after=n, may_refuse=True)]}
                     items.append((sc, 0))
+                    if base == 1e-3:
+                        # the same with a blocking driver: the second call lands while the sender is inside send_message
+                        items.append((dict(sc, send_cost=0.0003), 0))
     # the application reacts from inside a callback (next message from the EOM-acknowledge report, reply from the delivery)
     for wins in [(1, 1, 1), (2, 3, 255)]:
         for base in LATS:
@@ -128,7 +131,7 @@ def scenarios(tier):
                     probe['probe'] = True
                     probe['after'] = after if after else None
                     ms = long8 + withb + inb + [probe]
-                    sc = {'dll': DLL, 'stacks': stacks3(1, 1, 1), 'base_lat': 1e-3, 'msgs': ms}
+                    sc = {'dll': DLL, 'stacks': stacks3(1, 1, 1), 'base_lat': 1e-3, 'msgs': ms, 'late_ok': True}
                     items.append((sc, 0))
     return items
 
